@@ -300,6 +300,25 @@ let cdoc_of_sexp (s : sexp) : cdoc =
         | _ -> failwith "bad doc token") toks
   | _ -> failwith "bad doc"
 
+let doc_of_sexp (s : sexp) : doc =
+  match s with
+  | L (A "doc" :: toks) ->
+    List.map (function
+        | L [A "t"; A st; h] -> TText (style_of st, hx h)
+        | L [A "s"; A b] -> TStart (block_of b)
+        | L [A "e"; A b] -> TEnd (block_of b)
+        | _ -> failwith "bad doc token") toks
+  | _ -> failwith "bad doc"
+
+(* (rdoc ID (doc ..) (full 0|1) (th HEX ..)): the html and roff renderers on an explicit document *)
+let run_rdoc (id : string) (fields : sexp list) =
+  let doc = match List.filter (function L (A "doc" :: _) -> true | _ -> false) fields with
+    | [d] -> doc_of_sexp d | _ -> failwith "rdoc needs one doc" in
+  let full = match find_field "full" fields with Some [A "0"] -> false | _ -> true in
+  let th = match find_field "th" fields with Some l -> List.map hx l | None -> [] in
+  let show = function Some b -> hex_of_bytes b | None -> "PANIC" in
+  Printf.printf "%s\tRDOC\t%s\t%s\n" id (show (render_html full doc)) (show (render_roff th doc))
+
 let run_render (id : string) (fields : sexp list) =
   let doc = match List.filter (function L (A "doc" :: _) -> true | _ -> false) fields with
     | [d] -> cdoc_of_sexp d | _ -> failwith "render needs one doc" in
@@ -360,6 +379,10 @@ let run_case (line : string) =
     (match program_name (Some (hx h)) with
      | Some n -> Printf.printf "%s\tNAME\t%s\n" id (hex_of_bytes n)
      | None -> Printf.printf "%s\tNAME\t-\n" id)
+  | L (A "rdoc" :: A id :: fields) ->
+    (try run_rdoc id fields
+     with Failure m -> Printf.printf "%s\tBADCASE\t%s\n" id m
+        | Stack_overflow -> Printf.printf "%s\tBADCASE\tstack_overflow\n" id)
   | L (A "render" :: A id :: fields) ->
     (try run_render id fields
      with Failure m -> Printf.printf "%s\tBADCASE\t%s\n" id m
@@ -397,6 +420,16 @@ let run_case (line : string) =
               | Some d -> Printf.printf "%s\tHELPDOC\t%d\t%s\n" id (if detailed then 1 else 0) (string_of_doc d)
               | None -> Printf.printf "%s\tHELPDOC\tNONE\n" id)
            | other -> print_outcome id other)
+        | [A "docs"; app] ->
+          let app = hx app in
+          let (m, i) = match o with Options (p, i) -> (meta_of p, i) in
+          let show = function Some b -> hex_of_bytes b | None -> "PANIC" in
+          let sd = function Some d -> string_of_doc d | None -> "NONE" in
+          let bind o f = match o with Some x -> f x | None -> None in
+          let dh = collect_html env app m i in
+          let dr = manpage_doc env app m i in
+          Printf.printf "%s\tDOCS\t%s\t%s\t%s\t%s\n" id
+            (show (bind dh (render_html true))) (show (bind dr (render_roff (manpage_th app)))) (sd dh) (sd dr)
         | [A "invariant"] -> Printf.printf "%s\tINVARIANT\t%b\n" id (invariant_ok (match o with Options (p, _) -> meta_of p))
         | _ -> Printf.printf "%s\tBADMODE\n" id)
      with Failure m -> Printf.printf "%s\tBADCASE\t%s\n" id m
